@@ -31,10 +31,15 @@
                               torn after k = 0..4 bytes: k ≤ 2 → everything is re-read, k = 3, 4 → everything but that second;
                               never another second lost; `torn_erase3_prefix_loses_later_second_history` = the pre-fix defect
                               as a history-level `decide` witness (SH/Lemmas/DiskCacheTornErase.lean)
+   * `getP_eq_get`, `getP_pad_independent` (SH/Lemmas/DiskCachePad.lean) GetBucket reads into the caller's REUSED scratch pad:
+                              for every previous contents of the pad the result is the value `get` returns (so every theorem
+                              above about `get` holds for the call as the agent makes it); `emptyFastPath_returns_stale_bytes`
+                              = the seeded variant returning the previous second's bytes for an empty second (`decide`)
   NOTHING of the property statement remains partial in Lean. Outside the theorems (assumptions, see checks/C09.py): I/O error
   branches, crc strength (parameter), prefix-preserving file system, increasing file names, flock, size rotation on real files.
 -/
 import SH.Lemmas.DiskCacheTornErase
+import SH.Lemmas.DiskCachePad
 import SH.Gen.C09
 
 namespace SH.C09
